@@ -5,12 +5,13 @@ set_option maxHeartbeats 2000000 in
 theorem inv_w5park (n : Nat) (sh : Sh) (pcs : Tid → Pc) (t : Tid) (e : Env) (b : Bid) (hlt : t < n)
     (h : Inv ⟨n, sh, pcs⟩) (hpc : pcs t = (.w5park b)) (sh' : Sh) (pc' : Pc)
     (hts : tstep sh t (.w5park b) e = some (sh', pc')) : Inv ⟨n, sh', upd pcs t pc'⟩ := by
-  obtain ⟨hnd, hfr, hfw, hfq, hvir, ho1, hw1, haL, hvL, hinQ, hnotQ, hok, hdup, hcb, hc1, hc2, hc3, hn1, hn2, hn3, hn4, hn5, hg1, hg2, hg3, hg4, hg5⟩ := h
-  simp only at hnd hfr hfw hfq hvir ho1 hw1 haL hvL hinQ hnotQ hok hdup hcb hc1 hc2 hc3 hn1 hn2 hn3 hn4 hn5 hg1 hg2 hg3 hg4 hg5
+  obtain ⟨hnd, hfr, hfw, hfq, hvir, ho1, hw1, haL, hvL, hinQ, hnotQ, hok, hdup, hcb, hc1, hc2, hc3, hn1, hn2, hn3, hn4, hn5, hg1, hg2, hg3, hg4, hg5, he1, he2, he3, hO1, hk1, hk2⟩ := h
+  simp only at hnd hfr hfw hfq hvir ho1 hw1 haL hvL hinQ hnotQ hok hdup hcb hc1 hc2 hc3 hn1 hn2 hn3 hn4 hn5 hg1 hg2 hg3 hg4 hg5 he1 he2 he3 hO1 hk1 hk2
   have hF := fun v => cntOf_upd n atFsub pcs t v hlt
   have hP := fun v => cntOf_upd n atPop pcs t v hlt
-  rw [hpc] at hF hP
-  simp only [atFsub, atPop] at hF hP
+  have hC := fun v => cntOf_upd n carrierA pcs t v hlt
+  rw [hpc] at hF hP hC
+  simp only [atFsub, atPop, carrierA] at hF hP hC
   destruct_hts <;> (prep b; (try (rw [haLt] at hokw; have hl := ok_abort _ _ _ _ hokw)); fin)
 
 end MayVerif.Mutex
